@@ -710,6 +710,10 @@ func run(r *engine.Run) {
 	}
 
 	tally.MergeInto(r)
+	if nviol.Load() >= 200 {
+		r.Exhaustive = false
+		r.CapReasons = append(r.CapReasons, "enumeration stopped after 200 counterexamples")
+	}
 	sort.Slice(founds, func(i, j int) bool { return founds[i].pos < founds[j].pos })
 	for _, fd := range founds {
 		b, _ := json.Marshal(fd.t)
